@@ -21,7 +21,6 @@ import (
 	"encoding/json"
 	"fmt"
 	"os"
-	"sort"
 	"strings"
 	"time"
 
@@ -644,9 +643,13 @@ func corpus(pool []uniSpec) []jcase {
 		}
 		ops = append(ops, jop{K: "reinit"})
 		out = append(out, jcase{Note: "F-cidsort-default: local read of non-data chunks under the file context", Uni: pool[0], Ops: ops})
-		// the same through a retrieval of the intermediate chunk from a peer
+		// the same through a retrieval of a non-data chunk from a peer; the pyramid exchange happens
+		// inside OnChunkRetrieved (unknown root, remote source)
 		ops2 := []jop{{K: "put", L: []int{root}}}
-		_ = ops2
+		for _, c := range nondata {
+			ops2 = append(ops2, jop{K: "get", R: root, C: c, O: u.ids[u.peers[1]], Net: true})
+		}
+		out = append(out, jcase{Note: "F-cidsort-default: retrieval of non-data chunks under the file context", Uni: pool[0], Ops: ops2})
 	}
 	{
 		// single-chunk file inside a directory: root read, full upload, restart, delete
@@ -700,6 +703,5 @@ func main() {
 		}
 		runCase(run, jc)
 	}
-	_ = sort.Strings
 	run.Finish()
 }
